@@ -4,6 +4,8 @@
 package sch
 
 import (
+	"unsafe"
+
 	"ex.com/schema/dep"
 	"ex.com/schema/dep2"
 )
@@ -27,6 +29,7 @@ type Schema interface {
 	MC(f func(T0) R0, m map[T0]T1, c chan T0, p *T2, s []T1, i interface{ M() T0 })
 	MD(d dep.D, id string, url T1) dep.E
 	MG(batch map[dep.Key]dep.Entry[dep2.U], own dep.Entry[T2]) (dep.Entry[*T0], error)
+	MP(p unsafe.Pointer, q *unsafe.Pointer) unsafe.Pointer
 }
 
 // Base is embedded by Emb.
